@@ -3,6 +3,7 @@ Third walk, part 2: the task lists of a pass and the functions of `sync`.  Resul
 Core Lean only.
 -/
 import FurikoModel.Proofs.JobCtlInvStabWalk
+import FurikoModel.Proofs.JobCtlInvOwned
 
 set_option linter.unusedSimpArgs false
 set_option linter.unusedVariables false
@@ -10,9 +11,11 @@ set_option linter.unusedVariables false
 namespace Furiko.JobCtl
 open Furiko Furiko.WQ Furiko.StatusLemmas Furiko.ParallelLemmas
 
-/-- what is known about the pods when the pass starts in `sp` -/
+/-- what is known about the pods when the pass starts in `sp` (histories without foreign pods: every
+pod is the Job's, so the lookups are `getTaskForRef0` / `liveGetTask0`) -/
 structure PassCtx (j0 : JobObj) (sp : Sys) : Prop where
   pods : PodsGood j0 sp
+  owned : Owned j0 sp
   nodup : (podNames sp.pods).Nodup
   lin : ∀ c ∈ sp.podCache, c.pod.isFinished = true → PodFinIn sp.pods c.pod.name
 
@@ -28,12 +31,16 @@ theorem podFinIn_of_absent {P : List PodObj} {n : String} (h : findPod P n = non
   fun q hq hn => absurd hn (findPod_none h q hq)
 
 theorem liveGetTask_sem {j0 : JobObj} {sp : Sys} (ctx : PassCtx j0 sp) {n : String} {t : Task}
-    (h : liveGetTask sp n = some t) :
+    (h : liveGetTask0 sp n = some t) :
     TaskSem t ∧ t.name = n ∧ (t.ref.finishTimestamp.isSome = true → PodFinIn sp.pods n) ∧
     (PodFinIn sp.pods n → t.ref.finishTimestamp.isSome = true) := by
-  obtain ⟨p, hp, hpt⟩ := liveGetTask_some h
+  obtain ⟨p, hp, hpt⟩ : ∃ p, findPod sp.pods n = some p ∧ podTask p = some t := by
+    unfold liveGetTask0 at h
+    cases hp : findPod sp.pods n with
+    | none => simp [hp] at h
+    | some p => simp only [hp] at h; exact ⟨p, rfl, h⟩
   have hpm := findPod_some hp
-  have hc := (ctx.pods.pods p hpm.1).2.2
+  have hc := (ctx.pods.pods p hpm.1 (ctx.owned.pods p hpm.1)).2
   refine ⟨podTask_sem hc hpt, (podTask_ok hpt).2.trans hpm.2, ?_, ?_⟩
   · intro hf
     have := podFinIn_of_mem ctx.nodup hpm.1 ((podTask_fin_iff hc hpt).mp hf)
@@ -42,8 +49,8 @@ theorem liveGetTask_sem {j0 : JobObj} {sp : Sys} (ctx : PassCtx j0 sp) {n : Stri
     exact (podTask_fin_iff hc hpt).mpr (hfin p hpm.1 hpm.2)
 
 theorem liveGetTask_none_lost {sp : Sys} (nodup : (podNames sp.pods).Nodup) {n : String}
-    (h : liveGetTask sp n = none) : PodFinIn sp.pods n := by
-  unfold liveGetTask at h
+    (h : liveGetTask0 sp n = none) : PodFinIn sp.pods n := by
+  unfold liveGetTask0 at h
   cases hp : findPod sp.pods n with
   | none => exact podFinIn_of_absent hp
   | some p =>
@@ -54,16 +61,16 @@ theorem liveGetTask_none_lost {sp : Sys} (nodup : (podNames sp.pods).Nodup) {n :
 
 /-- the task found for a ref -/
 theorem getTaskForRef_sem {j0 : JobObj} {sp : Sys} (ctx : PassCtx j0 sp) {ref : TaskRef} {t : Task}
-    (h : getTaskForRef sp ref = some t)
+    (h : getTaskForRef0 sp ref = some t)
     (hfinref : ref.finishTimestamp.isSome = true → PodFinIn sp.pods ref.name) :
     TaskSem t ∧ (t.ref.finishTimestamp.isSome = true → PodFinIn sp.pods ref.name) ∧
     (ref.finishTimestamp.isSome = true → t.ref.finishTimestamp.isSome = true) := by
-  unfold getTaskForRef at h
+  unfold getTaskForRef0 at h
   cases hc : findPod sp.podCache ref.name with
   | some c =>
     simp only [hc] at h
     have hcm := findPod_some hc
-    have hcc := (ctx.pods.cache c hcm.1).2.2
+    have hcc := (ctx.pods.cache c hcm.1 (ctx.owned.cache c hcm.1)).2
     cases hpt : podTask c with
     | none => simp [hpt] at h
     | some t0 =>
@@ -91,8 +98,8 @@ theorem getTaskForRef_sem {j0 : JobObj} {sp : Sys} (ctx : PassCtx j0 sp) {ref : 
 
 /-- no task found for an unfinished ref: its pod is gone (or finished) -/
 theorem getTaskForRef_none_lost {j0 : JobObj} {sp : Sys} (ctx : PassCtx j0 sp) {ref : TaskRef}
-    (h : getTaskForRef sp ref = none) (hunf : ref.finishTimestamp.isSome = false) : PodFinIn sp.pods ref.name := by
-  unfold getTaskForRef at h
+    (h : getTaskForRef0 sp ref = none) (hunf : ref.finishTimestamp.isSome = false) : PodFinIn sp.pods ref.name := by
+  unfold getTaskForRef0 at h
   cases hc : findPod sp.podCache ref.name with
   | some c =>
     simp only [hc] at h
@@ -113,15 +120,16 @@ theorem getTaskForRef_none_lost {j0 : JobObj} {sp : Sys} (ctx : PassCtx j0 sp) {
     exact liveGetTask_none_lost ctx.nodup h
 
 /-- the refs of the cached Job against the tasks found for them -/
-theorem tasksForRefs_refsOK {j0 : JobObj} {sp : Sys} (ctx : PassCtx j0 sp) (N : List String) (R : List TaskRef)
+theorem tasksForRefs_refsOK {j0 jo : JobObj} {sp : Sys} (ctx : PassCtx j0 sp) (hu : jo.uid = j0.uid)
+    (N : List String) (R : List TaskRef)
     (hnd : (R.map (·.name)).Nodup) (hrs : ∀ r ∈ R, RS r)
     (hfin : ∀ r ∈ R, r.finishTimestamp.isSome = true → PodFinIn sp.pods r.name) (hN : ∀ r ∈ R, r.name ∈ N) :
-    TasksSem sp.pods N (tasksForRefs sp R) ∧ RefsOK sp.pods N (tasksForRefs sp R) R := by
-  have key : ∀ t ∈ tasksForRefs sp R, ∃ r ∈ R, getTaskForRef sp r = some t ∧ t.name = r.name := by
+    TasksSem sp.pods N (tasksForRefs sp jo R) ∧ RefsOK sp.pods N (tasksForRefs sp jo R) R := by
+  have key : ∀ t ∈ tasksForRefs sp jo R, ∃ r ∈ R, getTaskForRef0 sp r = some t ∧ t.name = r.name := by
     intro t ht
     unfold tasksForRefs at ht
     obtain ⟨r, hr, hg⟩ := List.mem_filterMap.mp ht
-    exact ⟨r, hr, hg, (getTaskForRef_ok hg).2⟩
+    exact ⟨r, hr, getTaskForRef_eq0 ctx.owned hu r ▸ hg, (getTaskForRef_ok hg).2⟩
   refine ⟨⟨?_, ?_, ?_⟩, ⟨hrs, ?_, hfin, ?_, fun r hr _ => hN r hr, fun r hr => Or.inl (hN r hr)⟩⟩
   · intro t ht
     obtain ⟨r, hr, hg, _⟩ := key t ht
@@ -139,8 +147,8 @@ theorem tasksForRefs_refsOK {j0 : JobObj} {sp : Sys} (ctx : PassCtx j0 sp) (N : 
     subst this
     exact (getTaskForRef_sem ctx hg (hfin r hr)).2.2 hf
   · intro r hr hn hunf
-    cases hg : getTaskForRef sp r with
-    | none => exact getTaskForRef_none_lost ctx hg hunf
+    cases hg : getTaskForRef sp jo r with
+    | none => exact getTaskForRef_none_lost ctx (getTaskForRef_eq0 ctx.owned hu r ▸ hg) hunf
     | some t =>
       exfalso
       apply hn
@@ -149,25 +157,27 @@ theorem tasksForRefs_refsOK {j0 : JobObj} {sp : Sys} (ctx : PassCtx j0 sp) (N : 
       exact List.mem_filterMap.mpr ⟨r, hr, hg⟩
 
 /-- … and against the tasks the finalizer finds (every absence confirmed by a live GET) -/
-theorem tasksForRefsConfirmed_refsOK {j0 : JobObj} {sp : Sys} (ctx : PassCtx j0 sp) (N : List String)
+theorem tasksForRefsConfirmed_refsOK {j0 jo : JobObj} {sp : Sys} (ctx : PassCtx j0 sp) (hu : jo.uid = j0.uid)
+    (N : List String)
     (R : List TaskRef) (hnd : (R.map (·.name)).Nodup) (hrs : ∀ r ∈ R, RS r)
     (hfin : ∀ r ∈ R, r.finishTimestamp.isSome = true → PodFinIn sp.pods r.name) (hN : ∀ r ∈ R, r.name ∈ N) :
-    TasksSem sp.pods N (tasksForRefsConfirmed sp R) ∧ RefsOK sp.pods N (tasksForRefsConfirmed sp R) R := by
-  have sem : ∀ (r : TaskRef) (t : Task), r ∈ R → getTaskForRefConfirmed sp r = some t →
+    TasksSem sp.pods N (tasksForRefsConfirmed sp jo R) ∧ RefsOK sp.pods N (tasksForRefsConfirmed sp jo R) R := by
+  have sem : ∀ (r : TaskRef) (t : Task), r ∈ R → getTaskForRefConfirmed sp jo r = some t →
       TaskSem t ∧ t.name = r.name ∧ (t.ref.finishTimestamp.isSome = true → PodFinIn sp.pods r.name) ∧
       (r.finishTimestamp.isSome = true → t.ref.finishTimestamp.isSome = true) := by
     intro r t hr hg
     unfold getTaskForRefConfirmed at hg
-    cases h0 : getTaskForRef sp r with
+    cases h0 : getTaskForRef sp jo r with
     | some t0 =>
       simp only [h0, Option.some.injEq] at hg; subst hg
-      have := getTaskForRef_sem ctx h0 (hfin r hr)
+      have := getTaskForRef_sem ctx (getTaskForRef_eq0 ctx.owned hu r ▸ h0) (hfin r hr)
       exact ⟨this.1, (getTaskForRef_ok h0).2, this.2.1, this.2.2⟩
     | none =>
       simp only [h0] at hg
+      rw [liveGetTask_eq0 ctx.owned hu] at hg
       obtain ⟨h1, h2, h3, h4⟩ := liveGetTask_sem ctx hg
       exact ⟨h1, h2, h3, fun hrf => h4 (hfin r hr hrf)⟩
-  have key : ∀ t ∈ tasksForRefsConfirmed sp R, ∃ r ∈ R, getTaskForRefConfirmed sp r = some t := by
+  have key : ∀ t ∈ tasksForRefsConfirmed sp jo R, ∃ r ∈ R, getTaskForRefConfirmed sp jo r = some t := by
     intro t ht
     unfold tasksForRefsConfirmed at ht
     obtain ⟨r, hr, hg⟩ := List.mem_filterMap.mp ht
@@ -190,13 +200,14 @@ theorem tasksForRefsConfirmed_refsOK {j0 : JobObj} {sp : Sys} (ctx : PassCtx j0 
     subst this
     exact hs.2.2.2 hf
   · intro r hr hn hunf
-    cases hg : getTaskForRefConfirmed sp r with
+    cases hg : getTaskForRefConfirmed sp jo r with
     | none =>
       unfold getTaskForRefConfirmed at hg
-      cases h0 : getTaskForRef sp r with
+      cases h0 : getTaskForRef sp jo r with
       | some t0 => simp [h0] at hg
       | none =>
         simp only [h0] at hg
+        rw [liveGetTask_eq0 ctx.owned hu] at hg
         exact liveGetTask_none_lost ctx.nodup hg
     | some t =>
       exfalso
@@ -210,24 +221,24 @@ theorem newPod_not_finished (jo : JobObj) (idx : PIndex) (retry : Int) (tm : Tim
     (newPod jo idx retry tm).pod.isFinished = false := rfl
 
 /-- the tasks the creation loop adds -/
-theorem newTask_sem {j0 : JobObj} {sp : Sys} (ctx : PassCtx j0 sp) {jo : JobObj} {names : List String} {t : Task}
-    (h : NewTask jo sp.podCache names t) :
+theorem newTask_sem {j0 : JobObj} {sp : Sys} (ctx : PassCtx j0 sp) {jo : JobObj} {P0 names : List String} {t : Task}
+    (h : NewTask jo sp.podCache P0 names t) :
     TaskSem t ∧ (t.ref.finishTimestamp.isSome = true → PodFinIn sp.pods t.name) ∧
     (t.ref.finishTimestamp.isSome = true → t.name ∈ podNames sp.podCache) := by
   obtain ⟨_, p, hpt, hsrc⟩ := h
-  rcases hsrc with ⟨idx, retry, tm, rfl⟩ | hc
+  rcases hsrc with ⟨⟨idx, retry, tm, rfl⟩, _⟩ | hc
   · have hunf : ¬ t.ref.finishTimestamp.isSome = true := by
       intro hf
       have := (podTask_fin_iff (p := newPod jo idx retry tm) rfl hpt).mp hf
       rw [newPod_not_finished] at this; cases this
     exact ⟨podTask_sem rfl hpt, fun hf => absurd hf hunf, fun hf => absurd hf hunf⟩
-  · have hcc := (ctx.pods.cache p hc).2.2
+  · have hcc := (ctx.pods.cache p hc.1 (ctx.owned.cache p hc.1)).2
     refine ⟨podTask_sem hcc hpt, ?_, ?_⟩
     · intro hf
-      have := ctx.lin p hc ((podTask_fin_iff hcc hpt).mp hf)
+      have := ctx.lin p hc.1 ((podTask_fin_iff hcc hpt).mp hf)
       rw [(podTask_ok hpt).2]; exact this
     · intro _
       rw [(podTask_ok hpt).2]
-      exact List.mem_map_of_mem hc
+      exact List.mem_map_of_mem hc.1
 
 end Furiko.JobCtl
